@@ -36,6 +36,8 @@ pub mod linear_algebra;
 pub mod matrices;
 pub mod numeric;
 pub mod tensors;
+#[cfg(feature = "verif-hooks")]
+pub mod verif_hooks;
 
 // examples
 pub mod k_means;
